@@ -148,6 +148,13 @@ func (s *State) execTop(f []string, line string) (bool, error) {
 			break
 		}
 		s.mode = modeRef{}
+		if len(f) == 6 {
+			// optional trailing metric
+			if _, err := strconv.Atoi(f[5]); err != nil {
+				return true, unsupported("route form %q", line)
+			}
+			f = f[:5]
+		}
 		if len(f) != 5 {
 			return true, unsupported("route form %q", line)
 		}
